@@ -75,6 +75,8 @@ pub enum MetaVal {
     Nest(u32, bool, Box<MetaVal>),
     /// verbatim JSON text (used when re-importing what another store printed)
     J(String),
+    /// a string of this many characters (frames larger than the 8 KiB journal buffer)
+    BigStr(u32),
 }
 
 impl MetaVal {
@@ -98,6 +100,7 @@ impl MetaVal {
                 V::Object(m)
             }
             MetaVal::J(text) => parse_json_deep(text.as_bytes()).expect("J holds printed JSON"),
+            MetaVal::BigStr(n) => V::String((0..*n).map(|i| (b'a' + (i % 26) as u8) as char).collect()),
             MetaVal::Nest(depth, arr, inner) => {
                 let mut cur = inner.to_json();
                 for _ in 0..*depth {
